@@ -209,8 +209,15 @@ def drive_and_validate(prop, tier, seed, bins, workdir, shards, tlc_timeout):
         res["samples"].extend(summ["samples"][:3])
         for s in sorted(glob.glob(os.path.join(d, "*.ndjson"))):
             jobs.append((prof, s))
-    # validate all shards in parallel (one JVM each, one worker: the traces are linear)
     t0 = time.time()
+    validate_jobs(jobs, res, tlc_timeout)
+    log("[tlc] %s: %d shards validated in %.1fs" % (prop, res["shards"], time.time() - t0))
+    return res
+
+
+def validate_jobs(jobs, res, tlc_timeout):
+    """validate recorded traces in parallel (one JVM each, one worker: the traces are linear);
+    jobs = [(profile, shard path)]; accumulates into res (violations, tool_errors, shards, trace_states, distinct)"""
     with concurrent.futures.ThreadPoolExecutor(max_workers=min(14, max(1, len(jobs)))) as ex:
         futs = {ex.submit(validate_shard, s, tlc_timeout): (prof, s) for prof, s in jobs}
         for fut in concurrent.futures.as_completed(futs):
@@ -226,26 +233,23 @@ def drive_and_validate(prop, tier, seed, bins, workdir, shards, tlc_timeout):
                     k = None
                 if k:
                     res["distinct"].add(hash(k))
-            if v.get("error") and not v.get("mismatches"):
-                res["tool_errors"].append("%s: %s" % (os.path.basename(s), v["error"]))
-                continue
             if v.get("error"):
                 res["tool_errors"].append("%s: %s" % (os.path.basename(s), v["error"]))
-            for mm in v["mismatches"]:
+            for mm in v.get("mismatches", [])[:60]:
                 l = mm["l"]
                 ev = json.loads(lines[l - 1])
                 # history prefix: everything since the register was last (re)bound
                 start = l
-                while start > 2 and json.loads(lines[start - 1]).get("nb") != 1:
+                while start > 2 and l - start < 200 and json.loads(lines[start - 1]).get("nb") != 1:
                     start -= 1
                 if ev.get("op", "").startswith("it_"):
-                    while start > 2 and json.loads(lines[start - 1]).get("op") != "it_new":
+                    while start > 2 and l - start < 200 and json.loads(lines[start - 1]).get("op") != "it_new":
                         start -= 1
-                prefix = [json.loads(x) for x in lines[max(start, l - 200) - 1:l - 1]]
+                prefix = [json.loads(x) for x in lines[start - 1:l - 1]]
                 res["violations"].append({"profile": prof, "shard": os.path.basename(s), "line": l, "event": ev,
                                           "complaints": mm["c"], "expected": mm["e"], "prefix": prefix})
-    log("[tlc] %s: %d shards validated in %.1fs" % (prop, res["shards"], time.time() - t0))
-    return res
+            if len(v.get("mismatches", [])) > 60:
+                res["more_mismatches"] = res.get("more_mismatches", 0) + len(v["mismatches"]) - 60
 
 
 def write_violation(prop, idx, v, tier, seed):
